@@ -71,7 +71,7 @@ Record bess := Bess {
 Record st := St {
   cfg_ifs : list N;                 (* RouteController(interfaces=...) *)
   ncache  : list (N * neigh);       (* _neighbor_cache *)
-  unres   : list (N * route);       (* _unresolved_arp_queries_cache: ONE route per next hop *)
+  unres   : list (N * list route);  (* _unresolved_arp_queries_cache: the routes waiting for a next hop, in arrival order *)
   gatecnt : list (N * N);           (* _module_gate_count_cache, keyed by the route module of the interface; default 0 *)
   kneigh  : list (N * N);           (* kernel neighbour table: next hop -> MAC   (ndb.neighbours.dump()) *)
   kern    : list (N * (N * N));     (* ghost: kernel routing table on the managed interfaces: prefix -> (next hop, iface) *)
@@ -125,12 +125,20 @@ Definition destroy (b : bess) (m : modname) : option bess :=
                          (filter (fun l => negb (eqb (fst (fst l)) m) && negb (eqb (fst (snd l)) m)) (links b)))
   end.
 
+(* RouteEntry is a dataclass: == compares all fields; `x in list` / list.remove(x) use it *)
+#[global] Instance Eqb_route : Eqb route := fun a b =>
+  N.eqb (r_pfx a) (r_pfx b) && N.eqb (r_nh a) (r_nh b) && N.eqb (r_if a) (r_if b).
+Fixpoint mem (r : route) (l : list route) : bool :=
+  match l with [] => false | x :: t => eqb r x || mem r t end.
+Fixpoint remove1 (r : route) (l : list route) : list route :=          (* list.remove: the first occurrence *)
+  match l with [] => [] | x :: t => if eqb r x then t else x :: remove1 r t end.
+
 (* ---------------------------------------------------------------- setters *)
 Definition set_bs (s : st) (b : bess) : st :=
   St (cfg_ifs s) (ncache s) (unres s) (gatecnt s) (kneigh s) (kern s) (nhif s) b (pings s).
 Definition set_nc (s : st) (nc : list (N * neigh)) : st :=
   St (cfg_ifs s) nc (unres s) (gatecnt s) (kneigh s) (kern s) (nhif s) (bs s) (pings s).
-Definition set_unres (s : st) (u : list (N * route)) : st :=
+Definition set_unres (s : st) (u : list (N * list route)) : st :=
   St (cfg_ifs s) (ncache s) u (gatecnt s) (kneigh s) (kern s) (nhif s) (bs s) (pings s).
 
 (* ---------------------------------------------------------------- handlers *)
@@ -166,19 +174,33 @@ Definition add_neighbor (s : st) (r : route) (mac : N) : st :=
        (gatecnt s) (kneigh s) (kern s) (nhif s) b1 (pings s)
   end.
 
-(* add_new_route_entry: fetch_mac reads the kernel table; unknown -> _probe_addr overwrites the
-   single pending slot of the next hop and pings *)
+(* _probe_addr: the route joins the routes waiting for its next hop (unless it is there already); ping *)
+Definition probe_addr (s : st) (r : route) : st :=
+  let l := match lookup (r_nh r) (unres s) with Some l => l | None => [] end in      (* setdefault(next_hop, []) *)
+  St (cfg_ifs s) (ncache s) (upsert (r_nh r) (if mem r l then l else l ++ [r]) (unres s)) (gatecnt s) (kneigh s)
+     (kern s) (nhif s) (bs s) (pings s ++ [r_nh r]).
+
+(* add_new_route_entry: fetch_mac reads the kernel table; unknown -> _probe_addr *)
 Definition add_new_route_entry (s : st) (r : route) : st :=
   match lookup (r_nh r) (kneigh s) with
-  | None => St (cfg_ifs s) (ncache s) (upsert (r_nh r) r (unres s)) (gatecnt s) (kneigh s) (kern s) (nhif s)
-               (bs s) (pings s ++ [r_nh r])
+  | None => probe_addr s r
   | Some mac => add_neighbor s r mac
   end.
 
 (* delete_route_entry *)
 Definition delete_route_entry (s : st) (r : route) : st :=
   match lookup (r_nh r) (ncache s) with
-  | None => s                                               (* "Neighbor ... does not exist": the pending slot is NOT purged *)
+  | None =>                                                 (* "Neighbor ... does not exist": drop it from the waiting routes *)
+    match lookup (r_nh r) (unres s) with
+    | None => s
+    | Some l =>
+      if mem r l then
+        match remove1 r l with
+        | [] => set_unres s (remove (r_nh r) (unres s))
+        | l' => set_unres s (upsert (r_nh r) l' (unres s))
+        end
+      else s
+    end
   | Some e =>
     match lpm_del (bs s) (r_if r) (r_pfx r) with
     | None => s                                             (* five failures, exception logged, return *)
@@ -194,13 +216,14 @@ Definition delete_route_entry (s : st) (r : route) : st :=
     end
   end.
 
-(* add_unresolved_new_neighbor; the kernel table is updated first *)
+(* add_unresolved_new_neighbor; the kernel table is updated first.  Every waiting route is
+   installed, in arrival order, then the key goes (an empty list is falsy: nothing happens) *)
 Definition new_neigh (s : st) (nh mac : N) : st :=
   let s1 := St (cfg_ifs s) (ncache s) (unres s) (gatecnt s) (upsert nh mac (kneigh s)) (kern s) (nhif s)
                (bs s) (pings s) in
   match lookup nh (unres s1) with
-  | None => s1
-  | Some r => let s2 := add_neighbor s1 r mac in set_unres s2 (remove (r_nh r) (unres s2))
+  | None | Some [] => s1
+  | Some l => let s2 := fold_left (fun s' r => add_neighbor s' r mac) l s1 in set_unres s2 (remove nh (unres s2))
   end.
 
 (* kernel ghosts *)
@@ -247,22 +270,11 @@ Definition bound_ev (s : st) (ev : event) : bool :=
                   match lookup (r_nh r) (nhif s) with None => true | Some i => N.eqb i (r_if r) end
   | _ => true
   end.
-(* at most one pending route per unresolved next hop *)
-Definition onepending_ev (s : st) (ev : event) : bool :=
-  match ev with
-  | NewRoute r => negb (managed s (r_if r)) || is_some (lookup (r_nh r) (kneigh s)) || is_none (lookup (r_nh r) (unres s))
-  | _ => true
-  end.
-(* no deletion of a route whose next hop is still unresolved *)
-Definition nodelpending_ev (s : st) (ev : event) : bool :=
-  match ev with
-  | DelRoute r => negb (managed s (r_if r)) || is_some (lookup (r_nh r) (kneigh s))
-  | _ => true
-  end.
-(* a deletion leaves another kernel route through the same next hop (its count does not reach 0) *)
+(* a deletion of a route whose next hop is resolved leaves another kernel route through the same
+   next hop (its count does not reach 0) *)
 Definition keepuser_ev (s : st) (ev : event) : bool :=
   match ev with
-  | DelRoute r => negb (managed s (r_if r)) ||
+  | DelRoute r => negb (managed s (r_if r)) || is_none (lookup (r_nh r) (kneigh s)) ||
                   existsb (fun kv => negb (N.eqb (fst kv) (r_pfx r)) &&
                                      match lookup (fst kv) (kern s) with
                                      | Some (nh, _) => N.eqb nh (r_nh r)
@@ -276,6 +288,6 @@ Fixpoint run_ok (chk : st -> event -> bool) (s : st) (h : list event) : bool :=
   | [] => true
   | ev :: t => chk s ev && run_ok chk (step s ev) t
   end.
-Definition good_ev (s : st) (ev : event) : bool :=
-  wf_ev s ev && bound_ev s ev && onepending_ev s ev && nodelpending_ev s ev.
+Definition good_ev (s : st) (ev : event) : bool := wf_ev s ev && bound_ev s ev.
+Definition wfu_ev (s : st) (ev : event) : bool := wf_ev s ev && keepuser_ev s ev.
 Definition goodu_ev (s : st) (ev : event) : bool := good_ev s ev && keepuser_ev s ev.
